@@ -152,3 +152,100 @@ def rule_keys(E, R, rule="R14-keys"):
     R.check(bool(adts) and names == {"type", "data"} and {"type", "data"} <= rl, rule, norm(de_entry[0]["path"]),
             "list entry keys `type`/`data` agree", "writer fields %s, reader literals %s" % (sorted(names), sorted(rl)),
             de_entry[0]["span"])
+
+
+# ----------------------------------------------------------------------------------------------
+# operator alias tables (C01, C07)
+
+ALIAS_SPEC = {
+    "ast::logical_expr::LogicalOp": [("or", "Or"), ("||", "Or"), ("xor", "Xor"), ("^^", "Xor"), ("and", "And"), ("&&", "And")],
+    "ast::logical_expr::UnaryOp": [("not", "Not"), ("!", "Not")],
+    "ast::logical_expr::QuantifierOp": [("any", "Any"), ("all", "All")],
+    "ast::field_expr::OrderingOp": [("eq", "Equal"), ("==", "Equal"), ("ne", "NotEqual"), ("!=", "NotEqual"),
+                                    ("ge", "GreaterThanEqual"), (">=", "GreaterThanEqual"), ("le", "LessThanEqual"),
+                                    ("<=", "LessThanEqual"), ("gt", "GreaterThan"), (">", "GreaterThan"),
+                                    ("lt", "LessThan"), ("<", "LessThan")],
+    "ast::field_expr::IntOp": [("&", "BitwiseAnd"), ("bitwise_and", "BitwiseAnd")],
+    "ast::field_expr::BytesOp": [("contains", "Contains"), ("~", "Matches"), ("matches", "Matches"),
+                                 ("wildcard", "Wildcard"), ("strict wildcard", "StrictWildcard")],
+    "ast::field_expr::ComparisonOp": [("in", "In"), ("<ast::field_expr::OrderingOp>", "Ordering"),
+                                      ("<ast::field_expr::IntOp>", "Int"), ("<ast::field_expr::BytesOp>", "Bytes")],
+}
+
+
+def alias_table(E, enum):
+    """ordered [(literal or <delegate type>, variant)] extracted from the lex_enum!-generated lexer"""
+    h = E.hir("<%s as lex::Lex>::lex" % enum)
+    if not h:
+        return None, None
+    out = []
+    for st in h["body"].get("stmts", []):
+        i = strip(st.get("e", {})) if st.get("k") in ("SExpr", "SSemi") else {}
+        if i.get("k") != "If":
+            continue
+        cond = strip(i["cond"])
+        if cond.get("k") != "LetExpr":
+            continue
+        src = strip(cond["init"])
+        key = None
+        if src.get("k") == "Call" and norm(src.get("callee", "")) == "lex::expect":
+            key = lit_value(src["args"][1])
+        elif src.get("k") == "Call" and norm(src.get("callee", "")) == "lex::Lex::lex":
+            m = re.search(r"Result<\((.*?), &str\)", norm(src.get("ty", "")))
+            key = "<%s>" % (m.group(1) if m else "?")
+        if key is None:
+            continue
+        if pat_variant(cond["pat"]) != "core::result::Result::Ok":
+            continue
+        var = None
+        for r in exprs(i["then"], "Ret"):
+            e = strip(r.get("e", {}))
+            if e.get("k") == "Call" and norm(e.get("callee", "")) == "core::result::Result::Ok":
+                t = strip(e["args"][0])
+                if t.get("k") == "Tup":
+                    first = strip(t["es"][0])
+                    d = def_path(first) or norm(first.get("callee", ""))
+                    if d and d.startswith(enum + "::"):
+                        var = last_seg(d)
+        out.append((key, var))
+    return h, out
+
+
+def rule_alias(E, R, rule="R01-alias"):
+    n = 0
+    tables = {}
+    for enum, want in ALIAS_SPEC.items():
+        h, got = alias_table(E, enum)
+        fn = "<%s as lex::Lex>::lex" % enum
+        if got is None:
+            R.cannot(rule, fn, "anchor not found")
+            continue
+        tables[enum] = got
+        n += len(got)
+        R.check(sorted(got) == sorted(want), rule, fn, "operator spellings of %s" % last_seg(enum),
+                "extracted %s, documented %s" % (got, want), h["span"])
+        # no spelling is shadowed by an earlier one that is its proper prefix
+        lits = [k for k, _ in got if not k.startswith("<")]
+        for i, a in enumerate(lits):
+            for b in lits[i + 1:]:
+                if b.startswith(a) and b != a:
+                    R.violation(rule, fn, "spelling %r shadowed by %r" % (b, a),
+                                "`%s` is tested before `%s`, which can therefore never be recognised" % (a, b), h["span"])
+    # delegation order in ComparisonOp: a literal of an earlier lexer must not be a proper prefix of a later one
+    got = tables.get("ast::field_expr::ComparisonOp") or []
+    flat = []
+    for k, v in got:
+        if k.startswith("<"):
+            for kk, vv in tables.get(k[1:-1], []):
+                flat.append((kk, v + "::" + str(vv)))
+        else:
+            flat.append((k, v))
+    for i, (a, va) in enumerate(flat):
+        for b, vb in flat[i + 1:]:
+            if b.startswith(a) and b != a and va.split("::")[0] != vb.split("::")[0]:
+                R.violation(rule, "<ast::field_expr::ComparisonOp as lex::Lex>::lex", "spelling %r shadowed by %r" % (b, a),
+                            "`%s` (%s) is tried before `%s` (%s)" % (a, va, b, vb))
+    if flat:
+        R.ok(rule, "<ast::field_expr::ComparisonOp as lex::Lex>::lex", "no spelling shadowed across delegated lexers (%d spellings)" % len(flat))
+    R.floor(rule, "operator spellings", n, 33)
+    return tables
